@@ -64,6 +64,8 @@ def run(ctx):
                        "new sites: %s; missing: %s; %s" % (new[:3], gone[:3], inv.stderr[-200:]))
     rng = ctx.rng
     ws = gen.Workspace(ctx)
+    first_cases = 0
+    first_bad = []
     ngr = 30 if not thorough else 300
     runs_per = 4 if not thorough else 8
     total = 0
@@ -77,6 +79,25 @@ def run(ctx):
         else:
             g = cfggen.gen_cfg(rng, with_error=(rng.random() < 0.2), max_nt=rng.choice([2, 3, 4, 5]))
         text = cfggen.lex_part(g) + "\n" + c10.syntax_text(g)
+        # K: the FIRST-set model of Perm.v (under the identity AND the reversing iteration order) vs the FIRST sets gocc computes
+        try:
+            import json
+            dd = os.path.join(ws.dir, "f%d" % gi)
+            os.makedirs(dd, exist_ok=True)
+            open(os.path.join(dd, "g.bnf"), "w").write(text)
+            dj = json.loads(subprocess.run([ctx.verifdump, "lr", os.path.join(dd, "g.bnf")], capture_output=True, text=True, timeout=60).stdout)
+            if dj.get("prods"):
+                hx = lambda x: x.encode("utf-8").hex()
+                line = " ".join(hx(n) for n in dj["nonterminals"]) + " | " + " ; ".join(
+                    " ".join([hx(p["id"])] + [hx(x) for x in (p["body"] or [])]) for p in dj["prods"])
+                out = vlib.run_lines([ctx.modelrun, "firstsets"], line + "\n")[0]
+                want = ";".join(hx(n) + "=" + ",".join(sorted(hx(a) for a in dj["first"].get(n, []))) for n in dj["nonterminals"])
+                first_cases += 1
+                a, _, b = out.partition(" # ")
+                if a != want or b != want:
+                    first_bad.append({"grammar": text, "gocc": want, "model_identity_order": a, "model_reversed_order": b})
+        except Exception as e:
+            first_bad.append({"grammar": text, "error": repr(e)})
         flags = rng.choice([[], ["-a"], ["-a", "-zip"], ["-a", "-v"], ["-zip"], ["-a", "-debug_parser"], ["-a", "-no_lexer"]])
         outs = []
         for k in range(runs_per):
@@ -109,6 +130,8 @@ def run(ctx):
                 break
         if len(samples) < 2:
             samples.append({"grammar": text, "flags": flags, "exit": outs[0][0], "files": sorted(outs[0][2])[:6]})
+    ctx.add_obligation("K: Perm.first_sets (identity and reversed map order) = gocc's FIRST sets on %d grammars" % first_cases,
+                       not first_bad, str(first_bad[:1])[:600])
     for o in ctx.failed_obligations():
         if reported < 6:
             # a changed inventory: the K runs above are the search for a failing input
